@@ -1207,3 +1207,33 @@ M("C02-property-setter-accepts-const-this", "C02", "src/interrogate/interfaceMak
   "        out << \"  if (!Dtool_Call_ExtractThisPointer_NonConst(self, Dtool_\" << ClassName << \", (void **)&local_this, \\\"\"\n            << classNameFromCppName(cClassName, false) << \".\" << ielem.get_name() << \"\\\")) {\\n\";\n        out << \"    return -1;\\n\";\n        out << \"  }\\n\\n\";\n      }\n\n      out << \"  if (arg == nullptr) {\\n\";",
   "        out << \"  if (!Dtool_Call_ExtractThisPointer(self, Dtool_\" << ClassName << \", (void **)&local_this)) {\\n\";\n        out << \"    return -1;\\n\";\n        out << \"  }\\n\\n\";\n      }\n\n      out << \"  if (arg == nullptr) {\\n\";",
   expect="R02.7|write_getset")
+
+# ---------------------------------------------------------------- C09 R09.6 / R09.7 (F-C09b, F-C09c)
+M("C09-null-directive-swallows-next-line", "C09", "src/cppparser/cppPreprocessor.cxx",
+  "  assert(c == '#');\n  // Skip blanks after the '#', but stay on the line: a '#' alone on a line is\n  // a (valid) null directive.\n  c = skip_comment(get());\n  while (c != EOF && c != '\\n' && isspace(c)) {\n    c = skip_comment(get());\n  }\n",
+  "  assert(c == '#');\n  c = skip_whitespace(get());\n",
+  expect="R09.6|process_directive|no-skip_whitespace")
+M("C09-skipper-hash-crosses-line", "C09", "src/cppparser/cppPreprocessor.cxx",
+  "    if (c == '#' && _start_of_line) {\n      c = skip_comment(get());\n      while (c != EOF && c != '\\n' && isspace(c)) {\n",
+  "    if (c == '#' && _start_of_line) {\n      c = skip_comment(get());\n      while (c != EOF && isspace(c)) {\n",
+  expect="R09.6|skip_false_if_block|blank-loop#0|stops-at-newline")
+M("C09-skipper-scans-literals-for-comments", "C09", "src/cppparser/cppPreprocessor.cxx",
+  "    } else if (c == '\"' || c == '\\'') {\n      // A string or character literal in the skipped text.",
+  "    } else if (false) {\n      // A string or character literal in the skipped text.",
+  expect="R09.7|skip_false_if_block|literal-branch")
+M("C09-skipper-literal-contents-through-skip_comment", "C09", "src/cppparser/cppPreprocessor.cxx",
+  "            break;\n          }\n        }\n        c = get();\n      }\n      if (c == quote_mark) {",
+  "            break;\n          }\n        }\n        c = skip_comment(get());\n      }\n      if (c == quote_mark) {",
+  expect="R09.7|skip_false_if_block|literal-branch|consumed-raw")
+M("C09-skipper-literal-ignores-escapes", "C09", "src/cppparser/cppPreprocessor.cxx",
+  "        if (c == '\\\\') {\n          c = get();\n          if (c == EOF || c == '\\n') {\n            break;\n          }\n        }\n        c = get();\n      }\n      if (c == quote_mark) {",
+  "        c = get();\n      }\n      if (c == quote_mark) {",
+  expect="R09.7|skip_false_if_block|literal-branch|escapes")
+M("C09-benign-literal-branch-two-tests", "C09", "src/cppparser/cppPreprocessor.cxx",
+  "      while (c != EOF && c != quote_mark && c != '\\n') {\n        if (c == '\\\\') {",
+  "      while (c != '\\n' && c != quote_mark && c != EOF) {\n        if (c == '\\\\') {",
+  benign=True)
+M("C09-benign-blank-loop-explicit", "C09", "src/cppparser/cppPreprocessor.cxx",
+  "  c = skip_comment(get());\n  while (c != EOF && c != '\\n' && isspace(c)) {\n    c = skip_comment(get());\n  }\n\n  int begin_line",
+  "  c = skip_comment(get());\n  while (c != '\\n' && c != EOF && isspace(c)) {\n    c = skip_comment(get());\n  }\n\n  int begin_line",
+  benign=True)
